@@ -106,11 +106,14 @@ structure Delivery where
 inductive Settle | ack | nack
   deriving DecidableEq, Repr, Inhabited
 
-/-- one `Publish` call: publisher object, topic, and for every element of the slice: which object, its context -/
+/-- one `Publish` call: publisher object, topic, and for every element of the slice: which object, the five router
+    values of its context; `owners`: for every element, whose BASE context its context still is (the value found
+    under a marker key that every message object carries on its own context from its creation) -/
 structure PubCall where
-  pub   : Nat
-  topic : String
-  items : List (Ref × Ctx5)
+  pub    : Nat
+  topic  : String
+  items  : List (Ref × Ctx5)
+  owners : List (Option Ref)
   deriving DecidableEq, Repr, Inhabited
 
 /-- everything observable about one consumed message -/
@@ -134,6 +137,27 @@ def outCtx (h : HCfg) (inCtx : Ctx) : Ref → Ctx
   | .consumed => addHandlerContext h inCtx
   | _ => addHandlerContext h []
 
+/-- a message context as far as C08 looks at it: the marker of the object it was created for, and the router values.
+    `context.WithValue` adds a value and keeps everything else of its parent – so deriving from a message's OWN context
+    keeps that message's marker (and deadline, cancellation, trace ids …) -/
+structure MCtx where
+  owner : Option Ref
+  vals  : Ctx
+  deriving DecidableEq, Repr, Inhabited
+
+def addHandlerContextM (h : HCfg) (m : MCtx) : MCtx := { m with vals := addHandlerContext h m.vals }
+
+/-- the context a produced object has when the function returns it: the consumed message has its own (already with
+    the handler context from the subscriber side), every other object the one it was created with -/
+def baseCtx (inM : MCtx) : Ref → MCtx
+  | .consumed => inM
+  | x => ⟨some x, []⟩
+
+/-- `addHandlerContext(produced...)` as written: `for i, msg := range messages { ctx := msg.Context(); …;
+    messages[i].SetContext(ctx) }` – every element from ITS OWN context -/
+def contextualise (h : HCfg) (inM : MCtx) (outs : List Ref) : List MCtx :=
+  outs.map fun x => addHandlerContextM h (baseCtx inM x)
+
 def handleOne (h : HCfg) (d : Delivery) : Result :=
   let c := addHandlerContext h d.ctx           -- subscriber-side context decorator
   match produced h d.shape with
@@ -142,7 +166,8 @@ def handleOne (h : HCfg) (d : Delivery) : Result :=
   | some (r :: rs) =>
     match h.pub with
     | none => ⟨d.mid, h.name, ctx5 c, .nack, []⟩
-    | some p => ⟨d.mid, h.name, ctx5 c, .ack, [⟨p, h.pubTopic, (r :: rs).map fun x => (x, ctx5 (outCtx h c x))⟩]⟩
+    | some p => ⟨d.mid, h.name, ctx5 c, .ack, [⟨p, h.pubTopic, (r :: rs).map fun x => (x, ctx5 (outCtx h c x)),
+        (contextualise h ⟨some .consumed, c⟩ (r :: rs)).map (·.owner)⟩]⟩
 
 /-! ### the router -/
 
@@ -158,6 +183,45 @@ def subscribeCalls (order : List HCfg) : List (Nat × String) := order.map fun h
 /-- the whole router: handlers started in `order` (any permutation of the configuration), then the script -/
 def route (order : List HCfg) (script : List Delivery) : List (String × List Result) :=
   order.map fun h => (h.name, runHandler h script)
+
+/-! ### `RunHandlers` as an operation on the router state (handlers added to a running router, decorators) -/
+
+/-- a handler inside the router: `pubPath` / `subPath` = the decorators a message meets on its way to the handler's
+    real publisher / from its real subscriber, in that order (empty until the handler is started) -/
+structure RH where
+  cfg     : HCfg
+  started : Bool := false
+  pubPath : List Nat := []
+  subPath : List Nat := []
+  deriving DecidableEq, Repr, Inhabited
+
+structure RSt where
+  pd : List Nat := []      -- Router.publisherDecorators, in the order added
+  sd : List Nat := []      -- Router.subscriberDecorators
+  hs : List RH := []
+  deriving Repr, Inhabited
+
+inductive ROp
+  | addHandler (h : HCfg)
+  | pubDec (i : Nat)
+  | subDec (i : Nat)
+  | runHandlers            -- `Run` (first) or `RunHandlers` (later, any number of times)
+  deriving Repr, Inhabited
+
+/-- one handler in `RunHandlers`: `if h.started { continue }`; otherwise `decorateHandlerPublisher` (first added =
+    outermost = first on the way out) and `decorateHandlerSubscriber` (first added = innermost = first on the way in),
+    on top of whatever the handler's publisher / subscriber already is -/
+def startRH (s : RSt) (h : RH) : RH :=
+  if h.started then h
+  else { h with started := true, pubPath := s.pd ++ h.pubPath, subPath := h.subPath ++ s.sd }
+
+def rstep (s : RSt) : ROp → RSt
+  | .addHandler h => { s with hs := s.hs ++ [⟨h, false, [], []⟩] }
+  | .pubDec i => { s with pd := s.pd ++ [i] }
+  | .subDec i => { s with sd := s.sd ++ [i] }
+  | .runHandlers => { s with hs := s.hs.map (startRH s) }
+
+def rexec (s : RSt) (ops : List ROp) : RSt := ops.foldl rstep s
 
 /-- results of the handler called `name` -/
 def resultsOf (name : String) : List (String × List Result) → List Result
